@@ -1386,9 +1386,12 @@ package mocrelay
 
 //@ func simpleMiddlewareHandleRecv
 //@   serves C17 C13
+//@   keeps anychan(error)
+//@   ensures chanclosed(rCh) == old(chanclosed(rCh))
 //@   requires refof(send) != refof(rCh) && refof(recv) != refof(rCh) && refof(recv) != refof(send)
 //@   assert[C17] @aftercall_ServeNostrClientMsg: g(lastcm, refof(base)) == cmsg
 //@   loop 1
+//@     invariant chanclosed(rCh) == old(chanclosed(rCh))
 //@     invariant[C17] g(cmcalls, refof(base)) - old(g(cmcalls, refof(base))) == chanhead(recv) - old(chanhead(recv))
 //@   loop 2
 //@     lwrites contents(send), contents(smsgCh), ghost(dropped, send)
@@ -1403,10 +1406,12 @@ package mocrelay
 //@     invariant lold(chanhead(cmsgCh)) <= chanhead(cmsgCh)
 //@     invariant chanhead(cmsgCh) <= len(chanbuf(cmsgCh))
 //@     invariant g(dropped, rCh) >= lold(g(dropped, rCh))
+//@     invariant chanclosed(rCh) == old(chanclosed(rCh))
 //@     invariant[C17] g(dropped, rCh) > lold(g(dropped, rCh)) || extendsByC(chanbuf(rCh), lold(chanbuf(rCh)), chanbuf(cmsgCh), lold(chanhead(cmsgCh)), chanhead(cmsgCh))
 
 //@ func simpleMiddlewareHandleSend
 //@   serves C17 C13
+//@   keeps anychan(error)
 //@   requires refof(send) != refof(sCh)
 //@   requires[C17] !chanclosed(sCh)
 //@   assert[C17] @aftercall_ServeNostrServerMsg: g(lastsm, refof(base)) == smsg
@@ -1753,6 +1758,36 @@ package mocrelay
 //@     invariant[C07] g(dropped, send) > lold(g(dropped, send)) ==> ctxdone(ctx)
 //@     invariant[C07] g(dropped, send) >= lold(g(dropped, send))
 //@     invariant[C07] g(dropped, send) == lold(g(dropped, send)) ==> extendsBy(chanbuf(send), lold(chanbuf(send)), chanbuf(subCh), lold(chanhead(subCh)), chanhead(subCh))
+
+// the two forwarders of the middleware wrapper: each cancels the session context when it ends; the receiving one
+// also closes the downstream handler's input
+//@ func NewSimpleMiddleware$5
+//@   serves C13
+//@   requires refof(send) != refof(rCh) && refof(recv) != refof(rCh) && refof(recv) != refof(send) && !chanclosed(rCh) && !isnil(rCh)
+//@   requires !isnil(errs) && !chanclosed(errs) && len(chanbuf(errs)) < chancap(errs)
+//@   assert @exit: calledcount(cancel) >= 1
+//@   assert @exit: chanclosed(rCh)
+//@ func NewSimpleMiddleware$6
+//@   serves C13
+//@   requires refof(send) != refof(sCh)
+//@   requires !isnil(errs) && !chanclosed(errs) && len(chanbuf(errs)) < chancap(errs)
+//@   assert @exit: calledcount(cancel) >= 1
+
+// the three forwarding legs of a merged session: whichever way a leg ends it cancels the session context (which
+// releases the children and the other legs); the receiving leg also closes the children's inputs
+//@ func mergeHandlerSession.ServeNostr$1
+//@   serves C13
+//@   assert @exit: calledcount(cancel) >= 1
+//@ func mergeHandlerSession.ServeNostr$2
+//@   serves C13
+//@   requires sessionWF(ss) && forall(i, 0, len(chanbuf(recv)), wfRecvMsg(chanbuf(recv)[i]))
+//@   requires forall(i, 0, len(ss.recvs), refof(ss.recvs[i]) != refof(recv))
+//@   assert @exit: calledcount(cancel) >= 1
+//@ func mergeHandlerSession.ServeNostr$3
+//@   serves C13
+//@   requires sessionWF(ss) && forall(i, 0, len(chanbuf(ss.preSendCh)), wfSendMsg(ss, chanbuf(ss.preSendCh)[i]))
+//@   requires !chanclosed(ss.preSendCh) && refof(send) != refof(ss.preSendCh)
+//@   assert @exit: calledcount(cancel) >= 1
 
 // the three legs of a WebSocket session (reader goroutine, writer goroutine, handler): whichever way a leg ends it
 // cancels the session context (the other legs and the peer are then released); the reader also closes the handler's
